@@ -626,6 +626,8 @@ class PhaseField(_Simu):
         if self.phaseFieldModel.solver == self.phaseFieldModel.SolverType.History:
             # update old history field for next resolution
             self.__old_psiP_e_pg = self.__psiP_e_pg
+            # the history field is an internal variable: Set_Iter needs it to resume from this iteration
+            iter["old_psiP_e_pg"] = self.__old_psiP_e_pg
 
         iter["displacement"] = self.displacement
         iter["damage"] = self.damage
@@ -647,6 +649,10 @@ class PhaseField(_Simu):
         # damage and displacement field will change thats why we need to update the assembled matrices
         self.__updatedDamage = False
         self.__updatedDisplacement = False
+
+        if "old_psiP_e_pg" in results:
+            self.__old_psiP_e_pg = results["old_psiP_e_pg"]
+            self.__psiP_e_pg = self.__old_psiP_e_pg
 
         if (
             resetAll
